@@ -663,7 +663,12 @@ func c11E2E(c *ctx) error {
 }
 
 // c11Single: the same tree uploaded plainly (core.Upload) and through a diamond with one split.
-func c11Single(c *ctx) error {
+func c11Single(c *ctx) error { return c11SingleN(c, false) }
+
+// c11SingleN: with big, the split holds a little more than one full index file (1000 entries) and the
+// metadata store acknowledges index files slowly: the split's index writer is busy when the last
+// uploads report in.
+func c11SingleN(c *ctx, big bool) error {
 	env := corekit.NewEnv()
 	repo := "r"
 	if err := env.CreateRepo(repo); err != nil {
@@ -676,6 +681,11 @@ func c11Single(c *ctx) error {
 	}
 	if c.rng.Intn(4) == 0 {
 		files["deep/er/file"] = c11Bytes(c, 5000) // larger than nothing special; several KiB
+	}
+	if big {
+		for i := 0; i < 1005+c.rng.Intn(12); i++ {
+			files[fmt.Sprintf("big/f%04d", i)] = []byte(fmt.Sprintf("%d", i%7))
+		}
 	}
 	if c.rng.Intn(3) == 0 {
 		// many small files: their upload results reach the split's index writer in a burst
@@ -701,10 +711,25 @@ func c11Single(c *ctx) error {
 	if err != nil {
 		return err
 	}
-	if err := c11UploadSplit(env, repo, dd.DiamondID, "only", files); err != nil {
+	upEnv := env
+	if big {
+		g := &crashstore.Group{}
+		g.Hook = func(_, op, key string) {
+			if op == "put" && strings.Contains(key, "/splits/") && strings.Contains(key, "bundle-files-") {
+				time.Sleep(150 * time.Millisecond)
+			}
+		}
+		upEnv = &corekit.Env{Blob: env.Blob, Meta: env.Meta, VMeta: env.VMeta, Wal: env.Wal, ReadLog: env.ReadLog}
+		upEnv.Stores = corekit.WithStores(env.Wal, env.ReadLog, env.Blob, crashstore.Wrap(g, "meta", env.Meta), crashstore.Wrap(g, "vmeta", env.VMeta))
+	}
+	if err := c11UploadSplit(upEnv, repo, dd.DiamondID, "only", files); err != nil {
 		return fmt.Errorf("split upload: %v", err)
 	}
-	for _, m := range c11Modes {
+	modes := c11Modes
+	if big {
+		modes = c11Modes[:1]
+	}
+	for _, m := range modes {
 		res := c11Commit(c11CloneEnv(env), repo, dd.DiamondID, m.mode, byHash)
 		c.w.Cases++
 		c.w.Op(fmt.Sprintf("single mode=%s up=%s", m.name, c11ShowFiles(ufs)), res)
@@ -781,6 +806,11 @@ func c11(c *ctx) error {
 	}
 	lap("e2e-overlap")
 	for i := 0; i < nsg; i++ {
+		if i == 0 {
+			if err := c11SingleN(c, true); err != nil {
+				return err
+			}
+		}
 		if err := c11Single(c); err != nil {
 			return err
 		}
